@@ -75,6 +75,8 @@ func c16NewWorld() *c16World {
 	cfg.Agent.ID = c16ID(0).String()
 	cfg.Agent.DataDir = dir
 	cfg.Agent.LogLevel = "error"
+	cfg.Exit.Enabled = true // the agent is exit endpoint (loopback only) AND transit
+	cfg.Exit.Routes = []string{"127.0.0.0/8"}
 	a, err := agent.New(cfg)
 	must(err)
 	return &c16World{a: a, dir: dir, self: c16ID(0), bufs: map[int]*c16Buf{}, conns: map[int]*peer.Connection{}}
